@@ -169,6 +169,8 @@ class CallMixin:
                 break
         user_init = init is not None and hasattr(init, "__code__") and self.in_repo(init)
         if dfields is None and not user_init:
+            if init is object.__init__ and self.in_repo_class(cls) and not args and not kwargs:
+                return [(st, st.alloc(cls))]       # plain marker class without constructor
             raise Unsupported(f"construction of {cls.__name__}", node)
         ref = st.alloc(cls)
         if "_initialized" in self.schema:
@@ -216,6 +218,13 @@ class CallMixin:
                 out.append((s2, r if isinstance(r, Exc) else ref))
             return out
         return [(st, ref)]
+
+    def in_repo_class(self, cls):
+        import sys as _sys
+        mod = _sys.modules.get(getattr(cls, "__module__", ""), None)
+        f = getattr(mod, "__file__", "") or ""
+        import os as _os
+        return _os.path.realpath(f).startswith(_os.path.realpath(loader.REPO) + _os.sep)
 
     def is_record_class(self, cls):
         """protobuf message classes: construction = allocation + keyword field initialisation"""
